@@ -4,12 +4,12 @@ CONSTANTS
   MaxId = 3
   MaxAcl = 1
   MaxFaults = 1
-  FIX_NamedResult = FALSE
+  FIX_NamedResult = TRUE
   FIX_AclWriteFirst = TRUE
   FIX_DeferredReset = TRUE
   FIX_LocalRollback = TRUE
   FIX_DeleteAfter = TRUE
-  FIX_NotifyAfterCommit = FALSE
+  FIX_NotifyAfterCommit = TRUE
   DEV_HeadsOutsideTx = FALSE
   DEV_SpaceTwoTx = FALSE
   GEN = FALSE
@@ -25,5 +25,6 @@ INVARIANT SpaceAllOrNothing
 INVARIANT ReopenValid
 INVARIANT LiveAgreesWithDisk
 INVARIANT RetrySucceeds
+INVARIANT ObserverSeesCommitted
 VIEW view
 CHECK_DEADLOCK FALSE
